@@ -31,3 +31,45 @@ def refresh_keeps_cond_err(ctx, variant, dim, nug, pre, next, how):
     s2 = ctx.integer("seed2", lo=1001, hi=2000)
     ctx.require(ctx.ne(s2, S["seed"]))
     finish(ctx, cs, dict(S2, seed=s2), next, seed=s2)
+
+
+# --- data honouring through the whole pipeline: mean, trend and a (nonlinear) normalizer -----------------
+from contracts import c07 as _c07       # noqa: E402
+from contracts.c07 import settings, mk, call, assume_inverse, generic_normalizer, FN_CALL, FN_SET, uf, wrap  # noqa: E402
+
+
+@contract(P, "CondSRF.__call__/honours-conditioning-values[mean+trend+normalizer]",
+          params=[{"variant": v, "n": n} for v in ("simple", "ordinary") for n in (1, 2)],
+          functions=FN_CALL + FN_SET + ["krige/base.py:Krige._krige_cond", "normalizer/tools.py:apply_mean_norm_trend"],
+          timeout=30, nsamples=3, search=40,
+          bounded="n<=2 conditioning points, dim 1, under the assumed inverse contract inv(A).A = I (T5)")
+def honours_pipeline(ctx, variant, n):
+    """the documented pipeline  field = trend + denormalize(mean + raw)  and its inverse on the
+    conditions  cond = normalize(value - trend) - mean  must compose to the identity at the data:
+    with a nonlinear normalizer, a mean and a trend the conditioned field still equals the
+    conditioning values at the conditioning locations (nugget 0), for every seed"""
+    S = settings(ctx, 1, variant, nug="zero", n=n)
+    a, b = ctx.real("tr_a", lo=-1.0, hi=1.0), ctx.real("tr_b", lo=-1.0, hi=1.0)
+    S["trend"] = lambda *x, _a=a, _b=b: _a + _b * x[0]
+    S["normalizer"] = generic_normalizer(ctx)()
+    if variant == "ordinary":        # ordinary system with a user mean (what `krige.mean = x` produces)
+        S["variant"] = "base-mean"
+        S["mean"] = ctx.real("mean", lo=-1.0, hi=1.0)
+    cs = mk(ctx, S)
+    k = cs.krige
+    xf = ctx.real("xfree", lo=2.0, hi=3.0)
+    pos = [list(S["cpos"][0]) + [xf]]
+    if ctx.mode == "sym":
+        k._c07_mat = _c07.LAST_INV_ARG[0]
+    H = assume_inverse(ctx, k)
+    if ctx.mode == "sym":
+        S["req"].append(ctx.hint(ctx.eq(uf("ucor", wrap(0)), 1), "generic model: normalised correlation cor(0) = 1"))
+    for i in range(n):              # normalizer contract (round trip) at the detrended conditioning values
+        z = S["cval"][i] - (a + b * S["cpos"][0][i])
+        S["req"].append(ctx.hint(ctx.eq(ctx.m.fn("c07_udn", ctx.m.fn("c07_un", z)), z),
+                                 "normalizer contract: denormalize(normalize(z)) = z"))
+    out = call(ctx, cs, S, pos)
+    for i in range(n):
+        by = None if ctx.mode == "conc" else [H] + S["req"]
+        ok = ctx.eq(out[i], S["cval"][i]) if ctx.mode == "sym" else abs(out[i] - S["cval"][i]) <= 1e-6
+        ctx.ensure("field=conditioning-value[%d]" % i, ok, using=by)
